@@ -850,3 +850,60 @@ func StaleFieldStores(fi *FuncInfo, name string) []string {
 	})
 	return out
 }
+
+// OpenWithoutDeferredClose: typestate rule for handle release (C10).  Every statement of the form
+//   if err := recv.<open>(); err != nil { ... }
+// must be followed, as the very next statement of the same block, by `defer recv.<close>()`: then the handle obtained by
+// a successful open is released on every exit (return, panic) of the method.  Returns the offending positions.
+func OpenWithoutDeferredClose(fi *FuncInfo, open, close string) []string {
+	var out []string
+	isCallTo := func(e ast.Expr, name string) bool {
+		call, ok := e.(*ast.CallExpr)
+		if !ok {
+			return false
+		}
+		se, ok := call.Fun.(*ast.SelectorExpr)
+		return ok && se.Sel.Name == name
+	}
+	var walk func(list []ast.Stmt)
+	walk = func(list []ast.Stmt) {
+		for i, s := range list {
+			if ifs, ok := s.(*ast.IfStmt); ok && ifs.Init != nil {
+				if as, ok := ifs.Init.(*ast.AssignStmt); ok && len(as.Rhs) == 1 && isCallTo(as.Rhs[0], open) {
+					okNext := false
+					if i+1 < len(list) {
+						if d, ok := list[i+1].(*ast.DeferStmt); ok && isCallTo(d.Call, close) {
+							okNext = true
+						}
+					}
+					if !okNext {
+						ps := fi.Pkg.Fset.Position(s.Pos())
+						out = append(out, fmt.Sprintf("%s:%d", relFile(ps.Filename), ps.Line))
+					}
+				}
+			}
+			ast.Inspect(s, func(n ast.Node) bool {
+				switch b := n.(type) {
+				case *ast.BlockStmt:
+					if n != s {
+						walk(b.List)
+						return false
+					}
+				case *ast.CaseClause:
+					walk(b.Body)
+					return false
+				case *ast.FuncLit:
+					return false
+				}
+				return true
+			})
+			if b, ok := s.(*ast.BlockStmt); ok {
+				walk(b.List)
+			}
+		}
+	}
+	if fi.Decl.Body != nil {
+		walk(fi.Decl.Body.List)
+	}
+	return out
+}
